@@ -91,6 +91,8 @@ def main(ctx):
         jobs.append({"kind": "count", "cls": cls, "w": 1})
         jobs.append({"kind": "alone", "cls": cls, "w": 2})
         jobs.append({"kind": "exotic", "cls": cls, "w": 2})
+    for cls in ("HELLO", "WELCOME"):
+        jobs.append({"kind": "features", "cls": cls, "w": 2})
     for lo in range(0, 256, 32):
         jobs.append({"kind": "code", "lo": lo, "hi": lo + 32, "w": 1})
     jobs.append({"kind": "code", "lo": -1, "hi": -1, "w": 1})     # special codes
@@ -125,7 +127,7 @@ def main(ctx):
         ctx.require("octets:" + cfg)
     for k in ("verdict:accept", "verdict:reject", "verdict:either", "outcome:accepted",
               "outcome:protocol-error", "kind:mut", "kind:count", "kind:code", "kind:uri",
-              "kind:validator", "kind:octets2", "kind:subst", "kind:exotic", "kind:alone",
+              "kind:validator", "kind:octets2", "kind:subst", "kind:exotic", "kind:alone", "kind:features", "role_feature_cases",
               "option_alone_cases", "exotic:ubjson",
               "exotic:cbor", "exotic:msgpack", "exotic:json", "uri_accepted", "uri_rejected",
               "octets_decoded_to_message"):
@@ -760,6 +762,24 @@ def job(a):
                 env.count("option_alone_cases")
                 env.structure(st, field, v, "%s minimal + only %s := %s" % (cls, k, G._short(v)))
         samples.append({"kind": "alone", "class": cls, "keys": len(keys), "cases": n})
+    elif kind == "features":
+        # every feature of every role of HELLO / WELCOME, alone, with every typed value (the seeds
+        # carry one feature per role)
+        cls = a["cls"]
+        spec = G.MESSAGES[cls]
+        table = G.CLIENT_ROLES if cls == "HELLO" else G.ROUTER_ROLES
+        minimal = G.build(spec, {})
+        n = 0
+        for role_, feats in table.items():
+            for f in feats:
+                for v in [True, False] + list(TYPED):
+                    st = _copy(minimal)
+                    st[spec.dict_index]["roles"] = {role_: {"features": {f: _copy(v)}}}
+                    n += 1
+                    env.count("role_feature_cases")
+                    env.structure(st, "roles.%s.features.%s" % (role_, f), v,
+                                  "%s roles := {%s: {features: {%s: %s}}}" % (cls, role_, f, G._short(v)))
+        samples.append({"kind": "features", "class": cls, "cases": n})
     elif kind == "pairs":
         cls = a["cls"]
         label, w = G.base_forms(cls)[a["form"]]
